@@ -307,7 +307,9 @@ def cases(tier, seed):
     stems = ["prog", "my-prog", "a_b", "9", "-", "--x", "A-B_c9", "x" * 60, "_", "-z", "0-0", "_ecb_start", "ecb_cls", "ecb_str", "ecb_hex"]
     flagsets = [[], ["-l"], ["-z"], ["-D"], ["-w"], ["-s", "80"], ["-l", "-z", "-D", "-w", "-s", "1"], ["-s", "0"], ["-s", "x"],
                 ["-c", "/nonexistent.yaml"], ["-q"]]
-    texts = ["10 PRINT \"HI\"\n20 GOTO 10\n", "10 A=.\n", "10 CLS:HSCREEN 2:HBUFF 1,100\n", "", "10 A$=HEX$(1)+STR$(2)\n"]
+    texts = ["10 PRINT \"HI\"\n20 GOTO 10\n", "10 A=.\n", "10 CLS:HSCREEN 2:HBUFF 1,100\n", "", "10 A$=HEX$(1)+STR$(2)\n",
+             # characters beyond Latin-1 and beyond the BMP in a remark, a constant and a DATA item (a listing pasted from a web page)
+             "10 REM IT\u2019S A MAZE\n20 PRINT \"GO \u2192 EAST\"\n", "10 DATA CAF\u00c9,\u03c0,\U0001F600\n20 READ A$,B$,C$\n", "10 A$=\"\u201cQUOTED\u201d \u2026\"\n"]
     m = 150 if tier == "quick" else 1650
     for i in range(m):
         yield {"kind": "cli", "stem": stems[i % len(stems)], "flags": flagsets[(i // len(stems)) % len(flagsets)],
